@@ -54,11 +54,10 @@ def rule_int(ctx, func, rule='C12.INT'):
     return n_checked
 
 
-def run(ctx):
+def rule_int_all(ctx):
     merkle_bl = ctx.func('merkle', 'Merkle.branch_length')
     merkle_td = ctx.func('merkle', 'Merkle.tree_depth')
     n = rule_int(ctx, merkle_bl) + rule_int(ctx, merkle_td)
-    ctx.floor('C12.INT', 2, n)
 
     # positive control: the rule must report the float route in the fixture
     from ..selfcheck import fixture_ctx
@@ -68,7 +67,10 @@ def run(ctx):
     if not any(o.verdict == 'violated' for o in fx.obligations):
         raise AnalysisError('positive control failed: C12.INT did not report the float fixture')
     ctx.note('positive control C12.INT: fixture merkle_float.py reported as expected')
+    return n
 
+
+def rule_branch_loop(ctx):
     # ONEAPPEND / TSCINDEP / MARKER on branch_and_root
     bar = ctx.func('merkle', 'Merkle.branch_and_root')
     cfg = ctx.cfg(bar)
@@ -126,7 +128,10 @@ def run(ctx):
                       'duplicate marker appended only when tsc_format holds',
                       'a constant marker can enter a classic (non-TSC) branch', loc=ctx.loc(bar, s))
     ctx.floor('C12.MARKER', 1, n_m)
+    return 3 + n_t + n_m
 
+
+def rule_align(ctx):
     # ALIGN: MerkleCache writes self.level[...] only at positions `X >> self.depth_higher` with X from _leaf_start
     n_a = 0
     for name in ('MerkleCache._extend_to', 'MerkleCache.truncate'):
@@ -159,4 +164,74 @@ def run(ctx):
                         why = f'{v} is not aligned with self._leaf_start(...) before the write'
                 ctx.check(okk, 'C12.ALIGN', ctx.key(f, s), 'level written at a segment-aligned position', why,
                           loc=ctx.loc(f, s))
-    ctx.floor('C12.ALIGN', 2, n_a)
+    return n_a
+
+
+def rule_truncate_noop(ctx):
+    """truncate() may skip the cut only when the requested length itself (not an aligned value) is >= the cached length:
+    a cut point inside the final partial segment must still drop that segment's level entry."""
+    f = ctx.func('merkle', 'MerkleCache.truncate')
+    p = f.params[1]
+    rets = [s for s in f.own_nodes() if isinstance(s, ast.Return) and s.value is None]
+    n = 0
+    for r in rets:
+        conds = pr.control_conditions(r, f.node)
+        ok = False
+        why = 'early return without a recognisable guard'
+        if len(conds) == 1 and conds[0][1]:
+            cn = q.comparison_normal(ctx, f, conds[0][0])
+            rebound = [s for s in q.assigns(ctx, f, p) if s.lineno < conds[0][2].lineno]
+            ok = cn is not None and cn[1] == '>=' and q.lin_eq(cn[0], {p: 1, 'self.length': -1, '': 0}) and not rebound
+            why = f'early return under `{norm(conds[0][0])}`' + (f' after {p} was re-assigned by `{norm(rebound[0])}`' if rebound else '')
+        ctx.check(ok, 'C12.ALIGN', ctx.key(f, r, 'no-op condition'),
+                  'the cut is skipped only when the requested length is >= the cached length',
+                  'the cut can be skipped for a requested length below the cached length (' + why +
+                  '): the stale level entry of the final partial segment survives a reorganisation', loc=ctx.loc(f, r))
+        n += 1
+    # length and level are cut together
+    ls = q.assigns(ctx, f, 'self.length')
+    lv = [s for s in f.own_nodes() if isinstance(s, ast.Assign) and isinstance(s.targets[0], ast.Subscript)
+          and ctx.res.canon(s.targets[0].value, f) == 'self.level']
+    cfg = ctx.cfg(f)
+    ok = len(ls) == 1 and len(lv) == 1
+    if ok:
+        a, b = cfg.node(ls[0]), cfg.node(lv[0])
+        ok = pr.path_avoiding(cfg, [a], [cfg.exit], {b}) is None and pr.path_avoiding(cfg, [cfg.entry], [b], {a}) is None
+    ctx.check(ok, 'C12.ALIGN', ctx.key(f, None, 'length and level cut together'),
+              'length and level are reduced on the same paths', 'length and level are not reduced together', loc=ctx.loc(f, f.node))
+    return n + 1
+
+
+def rule_tscforward(ctx):
+    """Every nested branch computation receives the caller's tsc_format (the TSC form may differ from the classic
+    one only by the marker, at every level of the composition)."""
+    n = 0
+    for f in ctx.repo.funcs.values():
+        if 'tsc_format' not in f.params + f.kwonly:
+            continue
+        for c in q.own_calls(f):
+            callee = ctx.res.resolve_ref(c.func, f)
+            if callee is None or 'tsc_format' not in callee.params + callee.kwonly:
+                continue
+            n += 1
+            passed = None
+            for kw in c.keywords:
+                if kw.arg == 'tsc_format':
+                    passed = kw.value
+            if passed is None and 'tsc_format' in callee.params:
+                idx = callee.params.index('tsc_format') - (1 if callee.cls and callee.parent is None else 0)
+                if 0 <= idx < len(c.args):
+                    passed = c.args[idx]
+            ctx.check(passed is not None and norm(passed) == 'tsc_format', 'C12.TSCFORWARD', ctx.key(f, q.stmt(c)),
+                      f'tsc_format forwarded to {callee.qual}',
+                      f'{callee.qual} is called without the caller\'s tsc_format '
+                      f'({"passes " + norm(passed) if passed is not None else "default used"}): '
+                      'that part of the branch is computed in the other format', loc=ctx.loc(f, c))
+    return n
+
+
+def run(ctx):
+    ctx.rule('C12.INT', lambda: rule_int_all(ctx), 2)
+    ctx.rule('C12.ONEAPPEND', lambda: rule_branch_loop(ctx), 7)
+    ctx.rule('C12.ALIGN', lambda: rule_align(ctx) + rule_truncate_noop(ctx), 4)
+    ctx.rule('C12.TSCFORWARD', lambda: rule_tscforward(ctx), 5)
